@@ -20,7 +20,7 @@ from . import simfs
 from .model import Log
 
 NEW, ADDED, SAVED, COMMITTED = 'new', 'added', 'saved', 'committed'
-KINDS = ('cell', 'cell', 'pmap', 'plist')
+KINDS = ('cell', 'cell', 'pmap', 'plist', 'eager')
 
 
 class Boom(Exception):
@@ -67,6 +67,8 @@ class FailingDM:
 def make(kind, tok):
     if kind == 'cell':
         return objs.Cell(tok)
+    if kind == 'eager':
+        return objs.Eager(tok)
     if kind == 'pmap':
         m = PersistentMapping()
         m['token'] = tok
